@@ -441,6 +441,9 @@ func crashHistory(c *fw.Ctx, ti *treeInfo, treeFile string, order []string, idx 
 			fmt.Sscan(string(b), &step)
 		}
 		mustWrite(filepath.Join(d, "plan2.json"), Plan{Restart: true})
+		if c.Thorough() || nestedQuick(p) {
+			nestedCrash(c, ti, treeFile, d, order, p, step, ref)
+		}
 		code, out = runChild(d, nil, "run", treeFile, "plan2.json", "out2.json")
 		if code != 0 {
 			c.Violation("C05:crash:restart-died:"+fw.PanicSite([]byte("panic(\n"+out)), "crash",
@@ -472,6 +475,63 @@ func crashHistory(c *fw.Ctx, ti *treeInfo, treeFile string, order []string, idx 
 		c.Outcome(fmt.Sprintf("crash %s step=%s head=%s", ti.t.Name, order[step], ti.byHashName(o.Head)))
 		c.Nontrivial(fmt.Sprintf("%s|%v|%d", ti.t.Name, order, p))
 		c.Count("crash_points", 1)
+	}
+}
+
+// nestedQuick: in the quick tier only every 7th crash point also gets the nested enumeration.
+func nestedQuick(p int) bool { return p%7 == 3 }
+
+// nestedCrash: the recovery that runs at restart writes to the stores too; kill the
+// restarting process before each of those writes (on a copy of the crashed directory),
+// restart once more and require the same invariants.
+func nestedCrash(c *fw.Ctx, ti *treeInfo, treeFile, d string, order []string, p, step int, ref RunOut) {
+	for q := 1; q < 64; q++ {
+		runSeq++
+		d2 := filepath.Join(c.Scratch, fmt.Sprintf("nested%d", runSeq))
+		if out, err := exec.Command("cp", "-a", d, d2).CombinedOutput(); err != nil {
+			c.Infra("cp failed: " + string(out))
+			return
+		}
+		code, out := runChild(d2, []string{fmt.Sprintf("VERIF_CRASH_AT=%d", q)}, "run", treeFile, "plan2.json", "outn.json")
+		if code == 0 {
+			os.RemoveAll(d2)
+			return // the recovery path has fewer than q writes: all its crash points are done
+		}
+		c.Eval(1)
+		vc := ViolCase{Tree: ti.t.Name, Order: order, CrashAt: p}
+		if code != crash.ExitCode {
+			c.Violation("C05:crash:restart-died:"+fw.PanicSite([]byte("panic(\n"+out)), "crash",
+				fmt.Sprintf("tree %s history %v: restart after a death before write %d died (nested point %d): %s", ti.t.Name, order, p, q, tail(out)), vc)
+			os.RemoveAll(d2)
+			return
+		}
+		code, out = runChild(d2, nil, "run", treeFile, "plan2.json", "outn2.json")
+		if code != 0 {
+			c.Violation("C05:crash:restart-died:"+fw.PanicSite([]byte("panic(\n"+out)), "crash",
+				fmt.Sprintf("tree %s history %v: node cannot restart after a death before write %d followed by a death before recovery write %d: %s", ti.t.Name, order, p, q, tail(out)), vc)
+			os.RemoveAll(d2)
+			continue
+		}
+		var ro RunOut
+		mustRead(filepath.Join(d2, "outn2.json"), &ro)
+		os.RemoveAll(d2)
+		o := &ro.Obs[0]
+		for _, b := range ti.structural(o, true, false) {
+			c.Violation("C05:crash:nested:"+class(b), "crash", fmt.Sprintf("tree %s history %v, death before write %d, then death before recovery write %d, after the second restart: %s", ti.t.Name, order, p, q, b), vc)
+		}
+		oldHead, newHead := ref.Obs[step].Head, ref.Obs[step+1].Head
+		allowed := map[string]bool{ti.t.Genesis: true}
+		for _, h := range []string{oldHead, newHead} {
+			ch, _ := ti.chain(h)
+			for _, b := range ch {
+				allowed[b.Hash] = true
+			}
+		}
+		if !allowed[o.Head] {
+			c.Violation("C05:crash:nested:head-out-of-bounds", "crash", fmt.Sprintf("tree %s history %v, death before write %d + recovery write %d: head %s", ti.t.Name, order, p, q, ti.byHashName(o.Head)), vc)
+		}
+		c.Count("nested_crash_points", 1)
+		c.Nontrivial(fmt.Sprintf("%s|%v|%d|n%d", ti.t.Name, order, p, q))
 	}
 }
 
@@ -591,7 +651,7 @@ func main() {
 			"one LevelDB write call (Put/Delete/Batch write) is atomic and ordered; writes reach the OS before the call returns (process death, not power loss)",
 			"accept-all consensus stub: group signatures / VRF are not verified",
 			"blocks are built by the harness with the validator's own setHash logic on the parent state; every block of a tree is valid",
-			"sync/fork-processor path (fork_block.go) and crashes during recovery itself are outside the bound",
+			"sync/fork-processor path (fork_block.go) is outside the bound; crashes during recovery are enumerated one level deep (every crash point in thorough, every 7th in quick)",
 		},
 		Run: run, Replay: replay,
 		Budget: func(t string) time.Duration {
